@@ -94,7 +94,9 @@ func selCases() []selCase {
 
 // selReal runs the case on a real ClientServerStream. bound: how long a call may take before it counts as blocked.
 func selReal(c selCase, bound time.Duration) string {
-	parent, cancel := context.WithCancel(context.Background())
+	// (the context a cancel op ends carries a cause: the stream reports ctx.Err(), never why the context ended)
+	parent, cancelCause := context.WithCancelCause(context.Background())
+	cancel := func() { cancelCause(causeErr(len(c.Setup)%3, false)) }
 	defer cancel()
 	// a deadline set-up op needs a context whose deadline the harness can make pass at that point
 	exp := &expiring{done: make(chan struct{})}
